@@ -59,13 +59,15 @@ Proof. exact record_spec. Qed.
 Print Assumptions C19_record.
 
 (* ---- non-vacuity: a mixed stream into (a int, b bigint, c varchar, d boolean) with the
-   mapping dst = [c; a; d; b; c] (c twice: the later source wins), src = [0; 1; 2; 3; 4] ---- *)
+   mapping dst = [c; a; d; b], src = [4; 1; 2; 3] (field 0 is not imported). A destination list
+   naming a column twice, or a column the table does not have, is refused record by record
+   (ErrColumns, relation.go checkColumnList): C19_bad_destination_refused ---- *)
 Definition ex_sch : schema :=
   [mkField TInt "a" 0; mkField TBigInt "b" 0; mkField TVarchar "c" 255; mkField TBoolean "d" 0].
-Definition ex_dst : list string := ["c"; "a"; "d"; "b"; "c"]%string.
+Definition ex_dst : list string := ["c"; "a"; "d"; "b"]%string.
 Definition ex_cfg : cfg :=
   match col_data_types ex_sch ex_dst with
-  | Some ts => mkCfg ts ex_dst [0; 1; 2; 3; 4]%nat
+  | Some ts => mkCfg ts ex_dst [4; 1; 2; 3]%nat
   | None => mkCfg [] [] []
   end.
 Definition bs : string := String "\"%char "N".     (* \N *)
@@ -90,6 +92,14 @@ Example C19_nonvacuous :
       [VInt 1; VInt 5000000000; VStr "y"; VBool true];
       [VNull; VNull; VNull; VNull];
       [VInt 4; VInt (-9223372036854775808); VStr ""; VBool false] ] ).
+Proof. vm_compute. split; reflexivity. Qed.
+
+(* until /repo 7956a4c a destination column named twice silently kept the later source only, and an
+   unknown destination column silently dropped its source *)
+Example C19_bad_destination_refused :
+  let evs := [RRecord ["1"; "2"]%string] in
+  import (mkCfg [TInt; TInt] ["a"; "a"]%string [0; 1]%nat) ex_sch evs [] = ([EvErr ErrColumns], []) /\
+  import (mkCfg [TInt; TInt] ["a"; "zz"]%string [0; 1]%nat) ex_sch evs [] = ([EvErr ErrColumns], []).
 Proof. vm_compute. split; reflexivity. Qed.
 
 (* a row of exactly 400 encoded bytes is accepted, 401 is not *)
